@@ -11,6 +11,7 @@ import (
 	"fmt"
 	"io"
 	"math"
+	"os"
 	"runtime"
 	"sort"
 	"strconv"
@@ -211,7 +212,7 @@ type c15case struct {
 	Fail     []int `json:"failing_calls"`       // indices (order of arrival at the node) of the calls that fail once
 	SlowAt   int   `json:"slow_call"`           // index of the slow call, -1 = none
 	SlowHalf int   `json:"slow_half_slots"`     // it takes SlowHalf/2 slot durations
-	Reorg    int   `json:"reorg_in_run_slot"`   // chain-reorg event in the middle of run slot k, -1 = none
+	Reorg    int   `json:"reorg_in_run_slot"`   // chain-reorg event 5 s into run slot k, -1 = none
 }
 
 func (c c15case) String() string {
@@ -541,7 +542,8 @@ func c15run(t *testing.T, cs c15case) *c15obs {
 		if cs.Reorg >= 0 {
 			go func() {
 				select {
-				case <-time.After(c15slotStart(cs, c15startSlot(cs)+uint64(cs.Reorg)) + c15Dur/2):
+				// 5 s into the slot: never the instant of a tick, of a call return (those are 0 or 2 s modulo 6 s) or of the stop
+				case <-time.After(c15slotStart(cs, c15startSlot(cs)+uint64(cs.Reorg)) + 5*time.Second):
 				case <-stop:
 					return
 				}
@@ -817,6 +819,11 @@ func TestVerifC15(t *testing.T) {
 		o := c15run(t, cs)
 		for _, n := range o.Notes {
 			r.Note("harness: " + n)
+		}
+		if os.Getenv("C15_DETCHECK") != "" {
+			if a, b := c15describe(cs, o), c15describe(cs, c15run(t, cs)); a != b {
+				fmt.Printf("NONDETERMINISTIC\n%s\n---\n%s\n", a, b)
+			}
 		}
 		viol, required, excused := c15check(cs, o)
 		r.Eval(c15key(cs, o))
